@@ -116,6 +116,14 @@ CLAIMED["C07"] = dict(
     design_ref="§5 C07",
 )
 
+CLAIMED["C12"] = dict(
+    category="fault_enumeration",
+    engine="deviation",
+    technique="deviation-bounded exploration: every non-empty subset of a phase diagram's solver calls forced to fail through injection hooks (2^(n-1)-1 histories per diagram), plus an exhaustive guess lattice; differential oracle against the stand-alone solve",
+    text="Pure diagrams (4, 6, 9 points) and binary_vle / bubble- / dew-point lines (5-8 points) are re-run with every non-empty subset of their solver calls forced to fail by the H3 hooks: exactly the forced points must go missing and every surviving point must equal the undisturbed point, which in turn must equal the stand-alone solve without guess; nested numbers of points must share points; pure, bubble/dew and flash calculations are repeated over a lattice of pressure / temperature / composition guesses within a factor 3 and with cascade stages forced to fail, and compared with the result obtained without guess.",
+    design_ref="§5 C12, §4.3",
+)
+
 NOT_YET = "check not built yet (work in progress; see DESIGN.md §9 build order) - not a claim that the technique cannot apply"
 
 ALL = ["C%02d" % i for i in range(1, 21)]
